@@ -85,6 +85,15 @@ class Ephem(Speaker):
 
         return self._interp
 
+    def _reset_interp(self):
+        """Drop the interpolator, which holds a copy of the values of the points.
+        It will be rebuilt from the current points at the next interpolation
+        """
+        if hasattr(self, "_interp"):
+            self._method = self._interp.method
+            self._order = self._interp.order
+            del self._interp
+
     @property
     def method(self):
         if hasattr(self, "_interp"):
@@ -131,6 +140,7 @@ class Ephem(Speaker):
         """Change the frames of all points"""
         for orb in self:
             orb.frame = frame
+        self._reset_interp()
 
     @property
     def form(self):  # pragma: no cover
@@ -142,6 +152,7 @@ class Ephem(Speaker):
         """Change the form of all points"""
         for orb in self:
             orb.form = form
+        self._reset_interp()
 
     def interpolate(self, date):
         """Interpolate data at a given date
